@@ -155,3 +155,16 @@ STATIC = [
     # A-CLOSED: the atomic word current_range is accessed only in reset / the copy operations / pop_left / pop_right / empty
     census.sites("contiguous_index_queue.current_range accesses", [CIQ], r"\bcurrent_range\b(?!;|\{)", 10),
 ]
+
+# ---- the free list under the deque (pika's freelist.hpp wrappers + the Boost.Lockfree 1.83 freelist_stack / tagged_ptr they
+# ---- instantiate: third-party code lifted from the installed headers, NOT part of /repo) -- third sub-agent -----------------------
+exec(open("/verif/specs/C17/freelist_spec.py").read())
+UNITS += FREELIST_UNITS
+# ---- back-end adapters over a sequential container model (order lemmas), contiguous_index_queue constructors/copies -- fourth ----
+exec(open("/verif/specs/C17/backends_spec.py").read())
+UNITS += BACKENDS_UNITS
+for _m in (FREELIST_META, BACKENDS_META):
+    for _k in ("trusted_base", "assumptions", "not_decided"):
+        META[_k] = list(META.get(_k, [])) + list(_m.get(_k, []))
+META["not_decided"] = [x for x in META["not_decided"] if not x.startswith("freelist reuse / memory reclamation: caching_freelist / static_freelist (freelist.hpp) are not under contract")]
+STATIC = list(globals().get("STATIC", [])) + list(FREELIST_STATIC) + [f for f in BACKENDS_STATIC if "current_range" not in str(getattr(f, "name", f))]
